@@ -9,6 +9,7 @@ variable {C : Type} (N : NumOps C)
 
 def child : Fld → E C → Option (E C)
   | .arg, .un _ a => some a
+  | .arg, .pl _ _ a => some a
   | .lhs, .bin _ l _ => some l
   | .rhs, .bin _ _ r => some r
   | .condition, .ite _ c _ _ => some c
@@ -32,22 +33,107 @@ def conjSem (rec : E C → E C → R) : List CmpAtom → E C → E C → R
   | [x], a, b => atomSem N rec x a b
   | x :: xs, a, b => (atomSem N rec x a b).and (conjSem rec xs a b)
 
-/-- loop-carrying comparator handlers: the arm of the hand model (the source of these handlers is
-tied by `C18_gen_shape_cmp_*`) -/
-def opaqueCmp (rec : E C → E C → R) : OpaqueTag → E C → E C → R
-  | .plTerm, .pl sb last arg, .pl sb' last' arg' =>
-      if sb.length ≠ sb'.length then .ff
-      else if plPairs N sb sb' = false then .ff
-      else (R.ofBool (N.feq last last')).and (rec arg arg')
-  | .call, .call f as, .call g bs =>
-      if f ≠ g ∨ as.length ≠ bs.length then .ff else equalArgs N as bs
-  | .varArg, .iter _ as, .iter _ bs => equalList N as bs
-  | _, _, _ => .ub
+/-! ### loop-carrying comparator handlers -/
+
+/-- `num_breakpoints()` / `num_args()` / number of iterated arguments -/
+def selfCount : E C → Nat
+  | .pl sb _ _ => sb.length
+  | .call _ as => as.length
+  | .iter _ as => as.length
+  | _ => 0
+
+def argAt : E C → Nat → Option (E C)
+  | .call _ as, i => as[i]?
+  | .iter _ as, i => as[i]?
+  | _, _ => none
+
+/-- `slope(i)` (i ≤ n) / `breakpoint(i)` (i < n): `data[2i]`, `data[2i+1]` -/
+def dAt : DFld → E C → Nat → Option C
+  | .slope, .pl sb last _, i => if i < sb.length then sb[i]?.map (·.1) else if i = sb.length then some last else none
+  | .breakpoint, .pl sb _ _, i => sb[i]?.map (·.2)
+  | _, _, _ => none
+
+def funcOf : E C → Option Nat
+  | .call f _ => some f
+  | _ => none
+
+def evalI (a : E C) (i : Nat) : IExp → Nat
+  | .idx => i
+  | .selfN => selfCount a
+  | .lit n => n
+
+/-- C++ `||` on outcomes -/
+def R.or : R → R → R
+  | .tt, _ => .tt
+  | .ff, y => y
+  | .unsup, _ => .unsup
+  | .ub, _ => .ub
+
+/-- C++ `!` on outcomes -/
+def R.not : R → R
+  | .tt => .ff
+  | .ff => .tt
+  | .unsup => .unsup
+  | .ub => .ub
+
+/-- apply to two accessor results; an accessor used out of range or on the wrong layout is `ub` -/
+def opt2 {α β : Type} (g : α → β → R) : Option α → Option β → R
+  | some x, some y => g x y
+  | _, _ => .ub
+
+/-- `strcmp(Cast<StringLiteral>(x).value(), Cast<StringLiteral>(y).value()) != 0` -/
+def strcmpNe : E C → E C → R
+  | .str s, .str s' => .ofBool (cstr s != cstr s')
+  | _, _ => .ub
+
+/-- a condition -/
+def evalB (rec : E C → E C → R) (a b : E C) (i : Nat) : BExp → R
+  | .tru => .tt
+  | .neCount => .ofBool (selfCount a != selfCount b)
+  | .neFunc => opt2 (fun f g => R.ofBool (f != g)) (funcOf a) (funcOf b)
+  | .neD f ix => opt2 (fun x y => R.ofBool (!N.feq x y)) (dAt f a (evalI a i ix)) (dAt f b (evalI a i ix))
+  | .eqD f ix => opt2 (fun x y => R.ofBool (N.feq x y)) (dAt f a (evalI a i ix)) (dAt f b (evalI a i ix))
+  | .otherExhausted ix => .ofBool (decide (selfCount b ≤ evalI a i ix))
+  | .otherCountIs ix => .ofBool (selfCount b == evalI a i ix)
+  | .neKindArg ix => opt2 (fun x y => R.ofBool (decide (x.kind ≠ y.kind))) (argAt a (evalI a i ix)) (argAt b (evalI a i ix))
+  | .equalArg ix => opt2 rec (argAt a (evalI a i ix)) (argAt b (evalI a i ix))
+  | .strcmpNeArg ix => opt2 strcmpNe (argAt a (evalI a i ix)) (argAt b (evalI a i ix))
+  | .equalChild f => opt2 rec (child f a) (child f b)
+  | .or x y => (evalB rec a b i x).or (evalB rec a b i y)
+  | .and x y => (evalB rec a b i x).and (evalB rec a b i y)
+  | .not x => (evalB rec a b i x).not
+
+def evalG (a : E C) (i : Nat) : Guard → Bool
+  | .isNumericArg ix => match argAt a (evalI a i ix) with
+    | some x => x.kind.isNumeric
+    | none => false
+  | .isStringArg ix => match argAt a (evalI a i ix) with
+    | some x => x.kind == .string
+    | none => false
+
+/-- `for (int i = 0; i < n; ++i) body` where a body that returns false yields `ff`, one that falls through `tt` -/
+def andRange : Nat → (Nat → R) → R
+  | 0, _ => .tt
+  | n + 1, f => (f 0).and (andRange n (fun k => f (k + 1)))
+
+mutual
+/-- A statement as an outcome: `tt` = fell through, `ff` = returned false, otherwise what it threw.  Sound
+because every early exit of these handlers is `return false` (checked by the translator), so the function's
+value is the short-circuit conjunction of its statements. -/
+def semS (rec : E C → E C → R) (a b : E C) : CStmt → Nat → R
+  | .failIf c, i => (evalB N rec a b i c).not
+  | .ite g t e, i => if evalG a i g then semL rec a b t i else semL rec a b e i
+  | .forRange n body, i => andRange (evalI a i n) (fun k => semL rec a b body k)
+  | .ret c, i => evalB N rec a b i c
+def semL (rec : E C → E C → R) (a b : E C) : List CStmt → Nat → R
+  | [], _ => .tt
+  | s :: rest, i => (semS rec a b s i).and (semL rec a b rest i)
+end
 
 def visitCmp (body : Kind → CmpBody) (rec : E C → E C → R) (a b : E C) : R :=
   match body b.kind with            -- ExprComparator(e1).Visit(e2) dispatches on e2.kind()
   | .conj atoms => conjSem N rec atoms a b
-  | .opaque t => opaqueCmp N rec t a b
+  | .prog p => semL N rec a b p 0
   | .unsupported => .unsup
 
 def equalStep (entry : Entry) (body : Kind → CmpBody) (rec : E C → E C → R) (a b : E C) : R :=
@@ -72,16 +158,37 @@ def chainSem (comb : UInt64 → UInt64 → UInt64) (rec : E C → Option UInt64)
   | h, (.index, .int) :: fs, .ref k i => chainSem comb rec (comb h (P.hInt i)) fs (.ref k i)
   | _, _, _ => none
 
-/-- loop-carrying hasher handlers: the arm of the hand model (tied by `C18_gen_shape_hash_*`) -/
-def opaqueHash (rec : E C → Option UInt64) : OpaqueTag → E C → Option UInt64
-  | .plTerm, .pl sb last arg =>
-      match rec arg with
-      | none => none
-      | some ha => some (combine (combine (plFold P (hashKind P .plterm) sb) (P.hDbl last)) ha)
-  | .call, .call f as => hashList P (combine (hashKind P .call) (P.hFun f)) as
-  | .varArg, .iter k as => hashList P (hashKind P (.iter k)) as
-  | .stringLiteral, .str s => some (strFold P (hashKind P .string) s)
-  | _, _ => none
+/-! ### loop-carrying hasher handlers -/
+
+def strOf : E C → Option (List UInt8)
+  | .str s => some (cstr s)
+  | _ => none
+
+/-- `std::hash<T>` of a value combined into the hash; `none` = throws / not available -/
+def evalHV (rec : E C → Option UInt64) (a : E C) (i : Nat) : HVal → Option UInt64
+  | .dAt f ix => (dAt f a (evalI a i ix)).map P.hDbl
+  | .argAt ix => (argAt a (evalI a i ix)).bind rec
+  | .childArg => (child .arg a).bind rec
+  | .funcName => (funcOf a).map P.hFun
+  | .charAt ix => (strOf a).bind (fun s => s[evalI a i ix]?.map P.hChar)
+
+def evalHC (a : E C) : HCount → Nat
+  | .selfN => selfCount a
+  | .strlen => ((strOf a).map List.length).getD 0
+
+/-- `for (i = 0; i < n; ++i) hash = step(i, hash)` -/
+def foldRange : Nat → (Nat → UInt64 → Option UInt64) → UInt64 → Option UInt64
+  | 0, _, h => some h
+  | n + 1, f, h => (f 0 h).bind (foldRange n (fun k => f (k + 1)))
+
+mutual
+def semHS (comb : UInt64 → UInt64 → UInt64) (rec : E C → Option UInt64) (a : E C) : HStmt → Nat → UInt64 → Option UInt64
+  | .combine v, i, h => (evalHV P rec a i v).map (comb h)
+  | .forRange n body, _, h => foldRange (evalHC a n) (fun k h' => semHL comb rec a body k h') h
+def semHL (comb : UInt64 → UInt64 → UInt64) (rec : E C → Option UInt64) (a : E C) : List HStmt → Nat → UInt64 → Option UInt64
+  | [], _, h => some h
+  | s :: rest, i, h => (semHS comb rec a s i h).bind (semHL comb rec a rest i)
+end
 
 def hashStep (entry : Entry) (body : Kind → HashBody) (comb : UInt64 → UInt64 → UInt64) (seed : UInt64)
     (rec : E C → Option UInt64) (a : E C) : Option UInt64 :=
@@ -90,7 +197,7 @@ def hashStep (entry : Entry) (body : Kind → HashBody) (comb : UInt64 → UInt6
   | .visit =>
     match body a.kind with
     | .chain fs => chainSem P comb rec (comb seed (P.hKind a.kind)) fs a   -- Hash(e) = HashCombine<int>(seed, e.kind())
-    | .opaque t => opaqueHash P rec t a
+    | .prog p => semHL P comb rec a p 0 (comb seed (P.hKind a.kind))   -- hash = Hash(e); p; return hash
     | .unsupported => none
 
 end MpVerif.C18
